@@ -71,6 +71,19 @@ def main(argv=None):
                     'whether an added assertion can fail is not decided' %
                     (rel, q, '; '.join(added[:3])))
             prog, report, gave_up = prog2, report2, gave_up2
+        if gave_up is None and not any(o.status == 'violation'
+                                       for o in report.obs):
+            from .depcone import unexamined_changes
+            un = unexamined_changes(prog, prop)
+            if un:
+                rel, q, chain = un[0]
+                gave_up = AnalysisError(
+                    '%s:%s differs from the reference version, is not '
+                    'provably equivalent to it, and is not examined by any '
+                    'rule of this property although the examined code '
+                    'depends on it (%s)%s' % (
+                        rel, q, chain, '; %d more' % (len(un) - 1)
+                        if len(un) > 1 else ''))
         if gave_up is not None:
             # an extractor gave up part-way.  If rules that did run already
             # found violations, report those (exit 1); otherwise this is not
